@@ -261,9 +261,73 @@ def _transparent_construct(n):
     return bool(_ITER_CLS.search(strip_targs(n.get('cls', ''))))
 
 
+def _ret_of(st):
+    """the return statement a branch consists of (bare, or the only statement of a compound)"""
+    if not is_node(st):
+        return None
+    if st['k'] == 'return':
+        return st
+    if st['k'] == 'compound' and len(st.get('ch', [])) == 1 and st['ch'][0]['k'] == 'return':
+        return st['ch'][0]
+    return None
+
+
+def _syn(op, a, b=None):
+    t = a.get('t', 0)
+    if b is None:
+        return {'k': 'un', 'op': op, 'e': a, 'i': -1, 'l': a.get('l', 0), 't': t}
+    return {'k': 'bin', 'op': op, 'lhs': a, 'rhs': b, 'i': -1, 'l': a.get('l', 0), 't': t}
+
+
+def _body_as_expr(stmts):
+    """The value returned by a statement list made of `if (c) return X;` ... `return E;` as ONE expression
+    (`if (c) return false; return e;` is `!c && e`). None for anything else."""
+    if not stmts:
+        return None
+    s0 = stmts[0]
+    if s0['k'] == 'return':
+        return s0.get('e') if is_node(s0.get('e')) else None
+    if s0['k'] == 'if' and is_node(s0.get('cond')):
+        r1 = _ret_of(s0.get('then'))
+        if r1 is None or not is_node(r1.get('e')):
+            return None
+        if s0.get('else') is not None:
+            r2 = _ret_of(s0['else'])
+            rest = r2.get('e') if r2 is not None and is_node(r2.get('e')) else None
+        else:
+            rest = _body_as_expr(stmts[1:])
+        if rest is None:
+            return None
+        c, x = s0['cond'], r1['e']
+        xv = strip_casts(x).get('v') if strip_casts(x).get('k') == 'bool' else None
+        if xv is True:
+            return _syn('||', c, rest)
+        if xv is False:
+            return _syn('&&', _syn('!', c), rest)
+        return _syn('||', _syn('&&', c, x), _syn('&&', _syn('!', c), rest))
+    return None
+
+
+def _subst_params(e, pmap):
+    """deep copy of e with references to parameters replaced by the argument expressions"""
+    import copy as _copy
+
+    def rec(v):
+        if isinstance(v, dict):
+            if 'k' in v and v['k'] == 'ref' and v.get('dk') == 'param' and v.get('did') in pmap:
+                return pmap[v['did']]
+            return {k_: rec(x) for k_, x in v.items()}
+        if isinstance(v, list):
+            return [rec(x) for x in v]
+        return v
+    return rec(e)
+
+
 def expr_helper(n):
-    """If n calls a repository function whose whole body is `return <expr>;`, return (callee Func, expr,
-    {param did: argument node}); such helpers are treated as the expression they return."""
+    """If n calls a repository function (on this object, or a free function) that only computes a value - its body is
+    `return <expr>;` or a chain of `if (c) return X;` ending in `return E;` - return (callee Func, expr, {}) where expr
+    is that value as one expression with the parameters replaced by the arguments of the call; such helpers are treated
+    as the expression they return."""
     if FX is None or not is_node(n) or n['k'] != 'call' or 'opc' in n or not n.get('usr'):
         return None
     if n.get('obj') is not None and not _is_this_like(n['obj']):
@@ -272,15 +336,19 @@ def expr_helper(n):
     if not gs:
         return None
     g = gs[0]
-    if g.d.get('virtual') or not g.body or g.body.get('k') != 'compound' or len(g.body.get('ch', [])) != 1:
+    if g.d.get('virtual') or not g.body or g.body.get('k') != 'compound' or not g.body.get('ch'):
         return None
-    st = g.body['ch'][0]
-    if st.get('k') != 'return' or not is_node(st.get('e')):
+    e = _body_as_expr(g.body['ch'])
+    if e is None:
         return None
     args = n.get('args', [])
     if len(args) != len(g.params):
         return None
-    return g, st['e'], {p['did']: a for p, a in zip(g.params, args)}
+    if g.params:
+        if any(x['k'] in ('lambda', 'new', 'throw') for a in args for x in walk(a)):
+            return None
+        e = _subst_params(e, {p['did']: a for p, a in zip(g.params, args)})
+    return g, e, {}
 
 
 def strip_casts(n):
@@ -887,13 +955,8 @@ def linform(fn, n, subst=None, depth=0, names=None):
     h = expr_helper(n)
     if h is not None:
         g, e, amap = h
-        gsub, gnames = {}, {}
-        for did, a in amap.items():
-            la = linform(fn, a, subst, depth + 1, names)
-            gnames[did] = render(fn, strip_casts(a), 0, names)
-            if la is not None and not (len(la[0]) == 1 and la[1] == 0 and list(la[0].values()) == [1] and list(la[0])[0] == gnames[did]):
-                gsub[did] = la
-        return linform(g, e, gsub, depth + 1, gnames)
+        # the parameters are already replaced by the caller's argument expressions: caller-side substitutions still apply
+        return linform(g if g.unit == fn.unit else fn, e, subst, depth + 1, names)
     if k == 'bin' and n['op'] in ('+', '-'):
         a = linform(fn, n['lhs'], subst, depth + 1, names)
         b = linform(fn, n['rhs'], subst, depth + 1, names)
@@ -1391,4 +1454,13 @@ def eval3(e, leaf):
         if e['op'] == '&&':
             return False if (a is False or b is False) else (None if (a is None or b is None) else True)
         return True if (a is True or b is True) else (None if (a is None or b is None) else False)
+    h = expr_helper(e)
+    if h is not None:
+        return eval3(h[1], leaf)        # a helper that only computes a value stands for that value
     return None
+
+
+def paired(fn, a, b):
+    """a and b always execute together on normal paths: one dominates the other and every path from it to the normal
+    exit passes the other (the statement-level meaning of "in the same block", which a spliced helper would split)."""
+    return (precedes(fn, a, b) and must_follow(fn, a, [b])) or (precedes(fn, b, a) and must_follow(fn, b, [a]))
